@@ -183,6 +183,9 @@ def evalMaxLength (s : Shape) (fv : FV) (rules : List Int) : List Result :=
     | .bnode _ => false
     | _ => ((valueNodeToString v).length : Int) ≤ n
 
+/-- the pseudo-string under which the harness records that python's `re.compile` rejects a pattern -/
+def regexInvalidMarker : String := "%invalid-regex%"
+
 /-- sh:pattern: the matcher is opaque; a table miss is reported as a failure of the driver -/
 def evalPattern (s : Shape) (fv : FV) (rx : Regex) (patterns : List Term) (flags : String) :
     Except Failure (List Result) :=
